@@ -222,3 +222,68 @@ def history_forms(A: np.ndarray, hermitian: bool = False):
         yield "leading_block_of_previous", A[: m - 1, : n - 1]
         yield "trailing_block_of_previous", A[1:, 1:]
     yield "parent_again", A
+
+
+def sparse_storage_forms(rng, X: np.ndarray):
+    """The same real m x n matrix X in the storage forms a caller may hand to a sparse routine: canonical CSR, CSC, COO, LIL, DOK, BSR, DIA (with the
+    out-of-range padding slots of the diagonal storage holding junk, as the spdiags idiom produces), raw CSR with DUPLICATE stored entries (which scipy
+    defines to be summed), raw CSR with unsorted indices, CSR with explicitly stored zeros, COO with repeated coordinates.  Every form satisfies
+    form.toarray() == X exactly (splits are x = x/2 + x/2 or x = (x - 1) + 1 on small integers / dyadic data; for general floats x = 0.5x + 0.5x is exact).
+    Yields (label, scipy sparse matrix)."""
+    from scipy import sparse
+
+    X = np.asarray(X, dtype=float)
+    m, n = X.shape
+    yield "csr", sparse.csr_matrix(X)
+    yield "csc", sparse.csc_matrix(X)
+    yield "coo", sparse.coo_matrix(X)
+    yield "lil", sparse.lil_matrix(X)
+    yield "dok", sparse.dok_matrix(X)
+    yield "bsr", sparse.bsr_matrix(X)
+    # DIA with junk in the padding slots
+    d = sparse.dia_matrix(X)
+    if d.data.size:
+        data = d.data.copy()
+        for r, off in enumerate(d.offsets):
+            for c in range(data.shape[1]):
+                i = c - off
+                if not (0 <= i < m and c < n):
+                    data[r, c] = 7.5 + r
+        dj = sparse.dia_matrix((data, d.offsets), shape=(m, n))
+        if np.array_equal(dj.toarray(), X):
+            yield "dia_padded", dj
+    rows, cols = np.nonzero(X)
+    vals = X[rows, cols]
+    # COO with every entry stored twice as halves (exact)
+    r2 = np.concatenate([rows, rows]); c2 = np.concatenate([cols, cols]); v2 = np.concatenate([0.5 * vals, 0.5 * vals])
+    perm = rng.permutation(len(r2))
+    coo_dup = sparse.coo_matrix((v2[perm], (r2[perm], c2[perm])), shape=(m, n))
+    if np.array_equal(coo_dup.toarray(), X):
+        yield "coo_duplicates", coo_dup
+    # raw CSR with duplicate column indices inside a row (has_canonical_format is False; .tocsr() returns it unchanged)
+    indptr = [0]; indices = []; data = []
+    for i in range(m):
+        for j in np.nonzero(X[i])[0]:
+            indices += [int(j), int(j)]; data += [0.5 * X[i, j], 0.5 * X[i, j]]
+        indptr.append(len(indices))
+    csr_dup = sparse.csr_matrix((np.array(data, dtype=float), np.array(indices, dtype=np.int32), np.array(indptr, dtype=np.int32)), shape=(m, n))
+    if np.array_equal(csr_dup.toarray(), X):
+        yield "csr_duplicates", csr_dup
+    # duplicates that CANCEL: x stored as (x + 1) and (-1) for integer data where that is exact
+    if len(vals) and np.all(vals == np.round(vals)) and np.all(np.abs(vals) < 2 ** 40):
+        indptr = [0]; indices = []; data = []
+        for i in range(m):
+            for j in np.nonzero(X[i])[0]:
+                indices += [int(j), int(j)]; data += [X[i, j] + 1.0, -1.0]
+            indptr.append(len(indices))
+        yield "csr_duplicates_cancelling", sparse.csr_matrix((np.array(data), np.array(indices, dtype=np.int32), np.array(indptr, dtype=np.int32)), shape=(m, n))
+    # unsorted indices
+    indptr = [0]; indices = []; data = []
+    for i in range(m):
+        js = list(np.nonzero(X[i])[0][::-1])
+        indices += [int(j) for j in js]; data += [X[i, j] for j in js]
+        indptr.append(len(indices))
+    yield "csr_unsorted", sparse.csr_matrix((np.array(data, dtype=float), np.array(indices, dtype=np.int32), np.array(indptr, dtype=np.int32)), shape=(m, n))
+    # explicitly stored zeros (every position stored)
+    full = sparse.csr_matrix((X.ravel().copy(), np.tile(np.arange(n, dtype=np.int32), m), np.arange(0, m * n + 1, n, dtype=np.int32)), shape=(m, n))
+    yield "csr_explicit_zeros", full
